@@ -450,6 +450,13 @@ def check_heap(rep, repo: Repo, pre: str = "") -> None:
     cinit = [e for e in init.events if e.kind == "store" and e.target == COLOR]
     okw = len(cinit) == 1 and cinit[0].value[0] == "listcomp" and cinit[0].value[1] == K("WHITE")
     rep.fn(pre + "H5-init", init.entry, "every element starts WHITE", okw, "color must be initialised to WHITE")
+    sized = ("call", ("builtin", "range"), (("param", init.entry.params[1]),), ())
+    for fld, val in (("cost", K("FLOAT_MAX")), ("color", K("WHITE")), ("p", ("const", -1)), ("pos", ("const", -1))):
+        st = [e for e in init.events if e.kind == "store" and e.target == ("attr", SELF, fld)]
+        ok = len(st) == 1 and st[0].value[0] == "listcomp" and st[0].value[1] == val and len(st[0].value[2]) == 1 \
+            and st[0].value[2][0][0] == sized and not st[0].value[2][0][2]
+        rep.fn(pre + "H-init", init.entry, f"{fld}[] has one slot per element (capacity `size`) initialised to {show(val)}", ok,
+               f"{fld} is initialised as '{show(st[0].value) if st else '?'}' over '{show(st[0].value[2][0][0]) if st and st[0].value[0] == 'listcomp' else '?'}'")
 
     # ---- H6 capacity ------------------------------------------------------------------
     def ret_cond(w: Walker) -> Optional[Term]:
